@@ -113,6 +113,8 @@ def main():
             broken.append(b)
     try:
         vlib.build_harness()
+        if getattr(mod, "NEEDS_ENDPOINT_BIN", False):
+            vlib.build_endpoint_bin()
     except Broken as b:
         harness_ok = False
         broken.append(b)
